@@ -450,9 +450,14 @@ func (p *Path) lockOf(v Value) *lockState {
 func natLock(p *Path, g *G, fr *Frame, fv *FuncV, args []Value) (Value, int) {
 	ls := p.lockOf(args[0])
 	if ls.writer || ls.readers > 0 {
+		if ls.pending == nil {
+			ls.pending = map[int]bool{}
+		}
+		ls.pending[g.id] = true
 		g.wait = "Lock of " + args[0].(*Ptr).String()
 		return nil, stBlock
 	}
+	delete(ls.pending, g.id)
 	ls.writer = true
 	ls.holder = g.id
 	return nil, stNext
@@ -470,7 +475,7 @@ func natTryLock(p *Path, g *G, fr *Frame, fv *FuncV, args []Value) (Value, int) 
 
 func natTryRLock(p *Path, g *G, fr *Frame, fv *FuncV, args []Value) (Value, int) {
 	ls := p.lockOf(args[0])
-	if ls.writer {
+	if ls.writer || len(ls.pending) > 0 {
 		return p.tc.Bool(false), stNext
 	}
 	ls.readers++
@@ -488,7 +493,7 @@ func natUnlock(p *Path, g *G, fr *Frame, fv *FuncV, args []Value) (Value, int) {
 
 func natRLock(p *Path, g *G, fr *Frame, fv *FuncV, args []Value) (Value, int) {
 	ls := p.lockOf(args[0])
-	if ls.writer {
+	if ls.writer || len(ls.pending) > 0 {
 		g.wait = "RLock of " + args[0].(*Ptr).String()
 		return nil, stBlock
 	}
